@@ -21,6 +21,15 @@ CHECKS = {
         'note': TB + 'Schemas (refs/effects_ref.py) and contracts (refs/rules_req.py) are the trusted base, reviewed against DESIGN Appendix A.1. Not decided: that the schemas are true ZX identities, termination, panic freedom beyond existence, float tolerance.',
         'technique': 'guard dominance with must-fact contracts, facts-at-program-point extraction, symbolic effect summaries with polynomial/linear normal forms, freshness dataflow',
     },
+    'C02': {
+        'text': 'Static: each arm of Gate::add_to_graph is reduced to a semantic descriptor (spider colours, connecting edge after colour change, phase '
+                'constant, sqrt2 power) that must equal the reference gate semantics and the independently extracted tensor-side descriptor of '
+                'Circuit::to_tensor; state/effect kinds have their sqrt2 powers; compound kinds go through the basic-gate expansion or the gadget (edge '
+                'discipline, scalar omega*2^2); PostSelect and Measure perform the same slot-keyed index-shift block; the qubit->output-slot map that SWAP '
+                'permutes is consumed as a gather in qubit order when outputs are finalised; every arm goes through the map; simplify-while-building applies only checked rules.',
+        'note': TB + 'Not decided: equality of maps for gate sequences, local_ap_simp\'s effect, the CCZ gadget identity.',
+        'technique': 'dispatch-table descriptors cross-checked between two implementations and a reference, sibling agreement, data-flow rule on the map, who-may-call',
+    },
     'C04': {
         'text': 'Static: must-fact extraction over the resolved HIR shows that each of the 14 contracted matchers establishes, on every accepting path, '
                 'every conjunct of its rule precondition that is necessary for soundness or for not panicking (refs/rules_req.py); existence typestate: no '
